@@ -251,5 +251,5 @@ def generate(repo: pathlib.Path) -> str:  # noqa: C901  (one linear recipe)
     emit_int("rgAfter", "(timestamp period : Int)", tr(after, rg), "`_remove_gap`: new start when the first slot is removed")
     emit_int("rgAfterSplit", "(timestamp period : Int)", tr(after2, rg), "`_remove_gap`: start of the second half of a split gap")
 
-    return ("import Frequenz.Model.Prelude\n\nnamespace Extracted.RingBuffer\n\n" + "\n".join(out)
+    return ("import Frequenz.Model.Prelude\n\nset_option linter.unusedVariables false\n\nnamespace Extracted.RingBuffer\n\n" + "\n".join(out)
             + "\nend Extracted.RingBuffer\n")
